@@ -218,13 +218,15 @@ pub fn gen_case(src: &mut Src, _i: usize) -> Case {
     let mut tr = ScreenTracker::new();
     for _ in 0..n {
         if src.chance(1, 6) {
-            if tr.alt == Some(false) {
+            // K1 (a resize while the alternate screen shows) is excluded by construction;
+            // one in twenty such resizes is emitted anyway so that the judge's exclusion
+            // path stays exercised and counted (`excluded_by_construction`)
+            if tr.alt == Some(false) || src.chance(1, 20) {
                 let (c, r) = gen::resize_target(src, &g);
                 g.cols = c;
                 g.rows = r;
                 case.calls.push(Call::Resize(c, r));
             }
-            // (K1) resizes while the alternate screen shows are excluded by construction
             continue;
         }
         let s = gen::input(src, &g, 6);
